@@ -7,7 +7,7 @@ VERIF = os.path.dirname(os.path.dirname(os.path.abspath(__file__)))
 
 CLAIMED = {
     "C01": dict(
-        text="Lean theorems, for every bit width at once: the LLVM instruction the generator selects for each operator "
+        text="`Types.Ty.access_path_accepted`: every access path the language allows on a variable (any sequence of [index] and .member steps through arrays, slices, structures, pointers and views of any nesting) is accepted by the typer's unification (model of analyze_assignment_steps / build_type_of_ref1 / is_like / can_be_concretization_of; the proof attempt exposed F64 before it held). Lean theorems, for every bit width at once: the LLVM instruction the generator selects for each operator "
              "(add/sub/mul, sdiv/udiv, srem/urem by signedness of the operand type, and/or/xor, shl/lshr, icmp s*/u*, "
              "neg, not, trunc/sext/zext) computes the documented result on values (`arith_sound`, `sdiv_sound`, `udiv_sound`, "
              "`cmp_sound`, ...). A source-level Lean interpreter (wrapping integers, forward gotos, block loops, auto-deref "
